@@ -311,7 +311,10 @@ class CallGraph:
                 for c in cands:
                     tg.extend(self._call_function(c))
                 return CallSite(q, n, list(dict.fromkeys(tg)), how="name fallback: every package method of that name")
-            return CallSite(q, n, [], external=(d or f"<expr>.{attr}"), how="external/builtin method")
+            ext = d or f"<expr>.{attr}"
+            if d is not None:
+                ext = self.ix.resolve(f.module, d, f.cls)
+            return CallSite(q, n, [], external=ext, how="external/builtin method")
         self.unresolved += 1
         return CallSite(q, n, [], external="<dynamic>", how="unresolved callee expression")
 
